@@ -231,6 +231,7 @@ func seedOf(output string) ([]byte, bool) {
 // ---- after every block -----------------------------------------------------------------------------------------
 
 func (m *Module) OnCommit(w *engine.World) {
+	m.loadGenesisBulk(w)
 	h := w.Height
 	ctx := w.Node.Ctx()
 	k := w.Node.K.Random
@@ -514,6 +515,9 @@ func (m *Module) countEvents(w *engine.World, e *rreq) {
 // block h nothing is left at a height below h.
 func QueueCheck(w *engine.World) {
 	m, _ := w.Mod(Name).(*Module)
+	if m != nil {
+		m.loadGenesisBulk(w)
+	}
 	h := w.Height
 	ctx := w.Node.Ctx()
 	w.Hit("C13.random_queue_checks")
